@@ -94,11 +94,12 @@ pub struct ProbeSignal<F> {
     pub idx: u64,
     pub end: Option<u64>,
     pub pulls: Pulls,
-    _f: std::marker::PhantomData<F>,
+    pub make: fn(u32, u64) -> F,
 }
 
-impl<F: TagFrame> ProbeSignal<F> {
-    pub fn new(id: u32, end: Option<u64>) -> (Self, Pulls) {
+impl<F: Frame> ProbeSignal<F> {
+    /// A probe whose frame `i` is `make(id, i)`.
+    pub fn with(id: u32, end: Option<u64>, make: fn(u32, u64) -> F) -> (Self, Pulls) {
         let pulls = Pulls::new();
         (
             ProbeSignal {
@@ -106,10 +107,16 @@ impl<F: TagFrame> ProbeSignal<F> {
                 idx: 0,
                 end,
                 pulls: pulls.clone(),
-                _f: std::marker::PhantomData,
+                make,
             },
             pulls,
         )
+    }
+}
+
+impl<F: TagFrame> ProbeSignal<F> {
+    pub fn new(id: u32, end: Option<u64>) -> (Self, Pulls) {
+        Self::with(id, end, F::tag)
     }
     /// What the model expects as frame number `i` of this source.
     pub fn expect(id: u32, end: Option<u64>, i: u64) -> F {
@@ -120,11 +127,14 @@ impl<F: TagFrame> ProbeSignal<F> {
     }
 }
 
-impl<F: TagFrame> Signal for ProbeSignal<F> {
+impl<F: Frame> Signal for ProbeSignal<F> {
     type Frame = F;
     fn next(&mut self) -> F {
         self.pulls.bump();
-        let f = Self::expect(self.id, self.end, self.idx);
+        let f = match self.end {
+            Some(e) if self.idx >= e => F::EQUILIBRIUM,
+            _ => (self.make)(self.id, self.idx),
+        };
         self.idx += 1;
         f
     }
@@ -138,20 +148,22 @@ impl<F: TagFrame> Signal for ProbeSignal<F> {
 /// after its first `None`.
 #[derive(Clone)]
 pub struct ProbeIter<T> {
+    pub id: u32,
     pub i: u64,
     pub len: u64,
     pub polls: Pulls,
     pub nones: Pulls,
     pub resume_after_none: bool,
-    pub make: fn(u64) -> T,
+    pub make: fn(u32, u64) -> T,
 }
 
 impl<T> ProbeIter<T> {
-    pub fn new(len: u64, resume_after_none: bool, make: fn(u64) -> T) -> (Self, Pulls, Pulls) {
+    pub fn new(id: u32, len: u64, resume_after_none: bool, make: fn(u32, u64) -> T) -> (Self, Pulls, Pulls) {
         let polls = Pulls::new();
         let nones = Pulls::new();
         (
             ProbeIter {
+                id,
                 i: 0,
                 len,
                 polls: polls.clone(),
@@ -170,7 +182,7 @@ impl<T> Iterator for ProbeIter<T> {
     fn next(&mut self) -> Option<T> {
         self.polls.bump();
         if self.i < self.len {
-            let v = (self.make)(self.i);
+            let v = (self.make)(self.id, self.i);
             self.i += 1;
             Some(v)
         } else if self.i == self.len {
@@ -179,7 +191,7 @@ impl<T> Iterator for ProbeIter<T> {
             None
         } else if self.resume_after_none {
             // a stream that "comes back"
-            let v = (self.make)(self.i + 1000);
+            let v = (self.make)(self.id, self.i + 1000);
             self.i += 1;
             Some(v)
         } else {
@@ -219,8 +231,8 @@ impl<S: Signal> Signal for Counted<S> {
 
 /// Dynamic composition: the in-tree `Box<dyn Signal>` impl is dead code (cfg typo), so the
 /// harness forwards through its own box.
-pub struct Dyn<F>(pub Box<dyn Signal<Frame = F>>);
-impl<F: Frame> Signal for Dyn<F> {
+pub struct Dyn<'a, F>(pub Box<dyn Signal<Frame = F> + 'a>);
+impl<'a, F: Frame> Signal for Dyn<'a, F> {
     type Frame = F;
     fn next(&mut self) -> F {
         self.0.next()
